@@ -215,6 +215,41 @@ let answer (s : state) (toks : Stdlib.String.t list) : Stdlib.String.t =
      | None -> "FUEL"
      | Some u -> shrefs (get_hcables s (sel_of_tok x) (bool_of_tok r) u (href_of_tok h)))
   | [ "hpins"; r; h ] -> shrefs (get_hpins s (bool_of_tok r) (href_of_tok h))
+  | "roots" :: fn :: n :: x :: r :: pats :: roots ->
+    (* a collection of roots (Hier/TraceRoots.v): H<href> | X<element id> | O<instance>.<inner pin>;
+       pats = patterns separated by ';' (is_case=True, is_re=False) *)
+    let pats = List.map str_of_tok (String.split_on_char ';' pats) in
+    let pat = pat_sel (absolute_b true false) (matches_b true false) pats in
+    let root_of_tok t =
+      let rest = String.sub t 1 (String.length t - 1) in
+      (match t.[0] with
+       | 'H' -> RHref (href_of_tok rest)
+       | 'X' -> RObj (QId (id_of_tok rest))
+       | 'O' -> (match String.split_on_char '.' rest with
+           | [a; b] -> RObj (QOuter (id_of_tok a, id_of_tok b))
+           | _ -> failwith ("bad root " ^ t))
+       | _ -> failwith ("bad root " ^ t)) in
+    let roots = List.map root_of_tok roots and r = bool_of_tok r in
+    (match fn with
+     | "hpins" -> shrefs (get_hpins_roots s r pat roots)
+     | "hports" -> shrefs (get_hports_roots s r pat roots)
+     | _ ->
+       (match usum_of s (id_of_tok n) with
+        | None -> "FUEL"
+        | Some u ->
+          (match fn with
+           | "hwires" -> shrefs (get_hwires_roots s (sel_of_tok x) r pat u roots)
+           | "hcables" -> shrefs (get_hcables_roots s (sel_of_tok x) r pat u roots)
+           | _ -> failwith ("bad roots query " ^ fn))))
+  | [ "ordered"; fn; r; pats; h ] ->
+    (* one instance reference through the name map: the answer IN YIELD ORDER (Hier/TraceRoots.v, get_ordered) *)
+    let k = (match fn with "hwires" -> OWires | "hcables" -> OCables | "hpins" -> OPins | "hports" -> OPorts
+                         | _ -> failwith ("bad ordered query " ^ fn)) in
+    let pats = List.map str_of_tok (String.split_on_char ';' pats) in
+    (match get_ordered s k (bool_of_tok r) (absolute_b true false) (matches_b true false) pats (href_of_tok h) with
+     | None -> "FUEL"
+     | Some None -> "RAISES"
+     | Some (Some l) -> shrefs (Some l))
   | [ "inner"; h ] -> shrefs (Some (match inner_hwire s (href_of_tok h) with Some x -> [x] | None -> []))
   | [ "outer"; h ] -> shrefs (Some (match outer_hwire s (href_of_tok h) with Some x -> [x] | None -> []))
   | _ -> failwith ("bad query: " ^ String.concat " " toks)
@@ -250,6 +285,24 @@ let parse_hq (toks : Stdlib.String.t list) : hq =
   | [ "hpins"; r; h ] -> HHpins (bool_of_tok r, href_of_tok h)
   | [ "inner"; h ] -> HInner (href_of_tok h)
   | [ "outer"; h ] -> HOuter (href_of_tok h)
+  | [ "ordered"; fn; r; pats; h ] ->
+    let k = (match fn with "hwires" -> OWires | "hcables" -> OCables | "hpins" -> OPins | "hports" -> OPorts
+                         | _ -> failwith ("bad ordered query " ^ fn)) in
+    HOrdered (k, bool_of_tok r, List.map str_of_tok (String.split_on_char ';' pats), href_of_tok h)
+  | "roots" :: fn :: n :: x :: r :: pats :: roots ->
+    let k = (match fn with "hwires" -> HKWire | "hcables" -> HKCable | "hpins" -> HKPin | "hports" -> HKPort
+                         | _ -> failwith ("bad roots query " ^ fn)) in
+    let root_of_tok t =
+      let rest = String.sub t 1 (String.length t - 1) in
+      (match t.[0] with
+       | 'H' -> RHref (href_of_tok rest)
+       | 'X' -> RObj (QId (id_of_tok rest))
+       | 'O' -> (match String.split_on_char '.' rest with
+           | [a; b] -> RObj (QOuter (id_of_tok a, id_of_tok b))
+           | _ -> failwith ("bad root " ^ t))
+       | _ -> failwith ("bad root " ^ t)) in
+    HRoots (k, id_of_tok n, sel_of_tok x, bool_of_tok r, List.map str_of_tok (String.split_on_char ';' pats),
+            List.map root_of_tok roots)
   | _ -> failwith ("bad query: " ^ String.concat " " toks)
 let srows (l : n list list) =
   String.concat "|" (List.map (fun r -> String.concat "." (List.map (fun x -> string_of_int (int_of_n x)) r)) l)
